@@ -2,7 +2,7 @@
     Only statements, each closed by [exact].  Model under [cfg_fixed]; [reach] = every history. *)
 From BX Require Import Model.Router Proofs.RouterProofs.
 From BX Require Import Base.Prelude Base.Fsm Model.TxFsm Model.TxMgr Model.Interchain Model.IbtpExec Model.IbtpMon Model.IbtpJudge
-     Proofs.IbtpInv Proofs.IbtpBlock Proofs.IbtpGroup Proofs.IbtpProps.
+     Proofs.IbtpInv Proofs.IbtpBlock Proofs.IbtpGroup Proofs.IbtpProps Proofs.IbtpNotify.
 From BX Require Import Proofs.IbtpMonProofs.
 Local Open Scope N_scope.
 
@@ -55,11 +55,35 @@ Theorem C05_router_faithful : forall d b m, indices_ok b m = true ->
 Proof. exact router_faithful. Qed.
 Print Assumptions C05_router_faithful.
 
-(** PARTIAL (notify_complete): that, in the block where the group fails, MultiTxCounter / TimeoutCounter
-    list every child for the source chain and every already-succeeded child for its destination chain,
-    is not proved as a theorem over all histories; it is part of the boolean predicate [c05_b], which is
-    evaluated on every implementation trace and on the model's traces (witnesses below). *)
+(** notify_complete, failure by a transaction: when an accepted IBTP takes a group from BEGIN to
+    BEGIN_FAILURE (a child fails at begin, or a failure receipt arrives), the multi-tx notify map of the
+    current height (which becomes MultiTxCounter of this block) lists every other child for the source
+    chain and every other already-succeeded child for its own destination chain *)
+Theorem C05_notify_complete : forall w st h serial b t' c' r g gi,
+  reach w st -> ibtp_wf w b ->
+  handle_ibtp cfg_fixed w h serial b (s_tm st) (s_ic st) = Some (t', c', r) ->
+  tm_glob (s_tm st) g = Some gi -> g_state gi = ST_BEGIN -> gstate t' g = Some ST_BEGIN_FAILURE ->
+  (forall k, In k (map fst (g_children gi)) -> k <> b_id b ->
+             In k (get_multi c' h (match svc_lookup w (fst (fst g)) with Some s => sv_chain s | None => 0 end))) /\
+  (forall k, In (k, ST_SUCCESS) (g_children gi) -> k <> b_id b ->
+             In k (get_multi c' h (notify_chain_dst w k))).
+Proof. exact c05_notify_step. Qed.
+Print Assumptions C05_notify_complete.
 
+(** notify_complete, failure by timeout: when the group's id is in the list read for the current
+    height, TimeoutCounter lists every child for its source chain and every already-succeeded child for
+    its destination chain, and the group becomes BEGIN_ROLLBACK *)
+Theorem C05_notify_timeout : forall w st ops st' bm mid t2 g gi k s,
+  reach w st -> block_facts w st ops st' bm mid t2 ->
+  In (TGid g) (get_timeout_list t2 (s_h st + 1)) -> tm_glob (s_tm mid) g = Some gi -> In (k, s) (g_children gi) ->
+  In k (m_timeout bm (chain_of w (fst (fst k)))) /\
+  (s = ST_SUCCESS -> In k (m_timeout bm (chain_of w (snd (fst k))))) /\
+  gstate (s_tm st') g = Some ST_BEGIN_ROLLBACK.
+Proof. exact c05_notify_timeout. Qed.
+Print Assumptions C05_notify_timeout.
+
+(** (that the notify map of height h is not touched after the block, i.e. MultiTxCounter of the block is
+    exactly this map, is by construction of [exec_block]: [m_multi bm = get_multi (s_ic mid) h].) *)
 
 (** the boolean predicate the judge evaluates on implementation traces is exactly the inductively
     defined trace property [C05_trace] (Proofs/IbtpMonProofs.v) *)
